@@ -25,17 +25,103 @@ func Fingerprint(f *ssa.Function) ([]string, error) {
 	if f == nil || len(f.Blocks) == 0 {
 		return nil, fmt.Errorf("no body")
 	}
-	fp := &fingerprinter{f: f, spill: map[*ssa.Alloc]ssa.Value{}}
+	// locals render by their definitions: the normal form does not depend on
+	// the names of local variables, and building a struct value field by field
+	// in a local is not an effect
+	fp := &fingerprinter{f: f, deflocals: true, spill: map[*ssa.Alloc]ssa.Value{}}
 	var lines []string
 	var walk func(b *ssa.BasicBlock, pred *ssa.BasicBlock, conds []string, effects []string, visited map[*ssa.BasicBlock]bool) error
-	walk = func(b *ssa.BasicBlock, pred *ssa.BasicBlock, conds []string, effects []string, visited map[*ssa.BasicBlock]bool) error {
-		if visited[b] {
-			return fmt.Errorf("loop through block %d", b.Index)
+	var walkFrom func(b *ssa.BasicBlock, pred *ssa.BasicBlock, start int, conds []string, effects []string, visited map[*ssa.BasicBlock]bool) error
+	// inlineWalk walks the paths of the loop-free new helper g called at call,
+	// adding its conditions and effects to the caller's, and resumes the caller
+	// (k) at each return of g with the rendering of g's results on that path.
+	inlineWalk := func(g *ssa.Function, call *ssa.Call, conds, effects []string, k func(conds, effects []string, res string) error) error {
+		c := fp.child(g, call.Call.Args)
+		var hw func(hb, hpred *ssa.BasicBlock, conds, effects []string, hv map[*ssa.BasicBlock]bool) error
+		hw = func(hb, hpred *ssa.BasicBlock, conds, effects []string, hv map[*ssa.BasicBlock]bool) error {
+			if hv[hb] {
+				return fmt.Errorf("loop through block %d of %s", hb.Index, g.Name())
+			}
+			hv[hb] = true
+			defer delete(hv, hb)
+			c.pred[hb] = hpred
+			for _, in := range hb.Instrs {
+				switch x := in.(type) {
+				case *ssa.Store:
+					if _, isParam := x.Val.(*ssa.Parameter); isParam {
+						if al, ok := x.Addr.(*ssa.Alloc); ok && al.Comment == x.Val.Name() {
+							continue
+						}
+					}
+					if c.definesLocal(x) {
+						continue
+					}
+					effects = append(effects, fmt.Sprintf("%s = %s", c.storeAddr(x.Addr), c.expr(x.Val)))
+				case *ssa.MapUpdate:
+					effects = append(effects, fmt.Sprintf("%s[%s] = %s", c.expr(x.Map), c.expr(x.Key), c.expr(x.Value)))
+				case *ssa.Call:
+					if x.Referrers() == nil || len(*x.Referrers()) == 0 || isEffectful(x) {
+						effects = append(effects, c.expr(x))
+					}
+				case *ssa.Panic:
+					lines = append(lines, strings.Join(sortedCopy(conds), " && ")+" => "+strings.Join(effects, "; ")+" ; panic("+c.expr(x.X)+")")
+					return nil
+				case *ssa.Return:
+					var rs []string
+					for _, r := range x.Results {
+						rs = append(rs, c.expr(r))
+					}
+					return k(conds, effects, strings.Join(rs, "\x00"))
+				case *ssa.If:
+					if err := hw(hb.Succs[0], hb, append(append([]string{}, conds...), c.cond(x.Cond, true)...), append([]string{}, effects...), hv); err != nil {
+						return err
+					}
+					return hw(hb.Succs[1], hb, append(append([]string{}, conds...), c.cond(x.Cond, false)...), append([]string{}, effects...), hv)
+				case *ssa.Jump:
+					return hw(hb.Succs[0], hb, conds, effects, hv)
+				}
+			}
+			return nil
 		}
-		visited[b] = true
-		defer delete(visited, b)
-		fp.pred[b] = pred
-		for _, in := range b.Instrs {
+		return hw(g.Blocks[0], nil, conds, effects, map[*ssa.BasicBlock]bool{})
+	}
+	walk = func(b *ssa.BasicBlock, pred *ssa.BasicBlock, conds []string, effects []string, visited map[*ssa.BasicBlock]bool) error {
+		return walkFrom(b, pred, 0, conds, effects, visited)
+	}
+	walkFrom = func(b *ssa.BasicBlock, pred *ssa.BasicBlock, start int, conds []string, effects []string, visited map[*ssa.BasicBlock]bool) error {
+		if start == 0 {
+			if visited[b] {
+				return fmt.Errorf("loop through block %d", b.Index)
+			}
+			visited[b] = true
+			defer delete(visited, b)
+			fp.pred[b] = pred
+		}
+		for idx, in := range b.Instrs {
+			if idx < start {
+				continue
+			}
+			if hc, isCall := in.(*ssa.Call); isCall {
+				if g := hc.Call.StaticCallee(); isNewHelper(g) && valueHelper(g) && !usedInCond(hc, 0) {
+					// a new helper whose result is used as a value: the caller
+					// has one path per path of the helper (virtual inlining)
+					next := idx + 1
+					return inlineWalk(g, hc, conds, effects, func(conds2, effects2 []string, res string) error {
+						if fp.override == nil {
+							fp.override = map[ssa.Value]string{}
+						}
+						prev, had := fp.override[hc]
+						fp.override[hc] = res
+						err := walkFrom(b, pred, next, append([]string{}, conds2...), append([]string{}, effects2...), visited)
+						if had {
+							fp.override[hc] = prev
+						} else {
+							delete(fp.override, hc)
+						}
+						return err
+					})
+				}
+			}
 			switch x := in.(type) {
 			case *ssa.Store:
 				if _, isParam := x.Val.(*ssa.Parameter); isParam {
@@ -44,7 +130,10 @@ func Fingerprint(f *ssa.Function) ([]string, error) {
 						continue // spilled parameter
 					}
 				}
-				effects = append(effects, fmt.Sprintf("%s = %s", fp.addr(x.Addr), fp.expr(x.Val)))
+				if fp.definesLocal(x) {
+					continue // the value shows where the local is used
+				}
+				effects = append(effects, fmt.Sprintf("%s = %s", fp.storeAddr(x.Addr), fp.expr(x.Val)))
 			case *ssa.MapUpdate:
 				effects = append(effects, fmt.Sprintf("%s[%s] = %s", fp.expr(x.Map), fp.expr(x.Key), fp.expr(x.Value)))
 			case *ssa.Call:
@@ -203,6 +292,78 @@ type fingerprinter struct {
 	// override: the rendering of a helper call's results on the helper path
 	// currently being walked (virtual inlining of multi-path helpers)
 	override map[ssa.Value]string
+	// derive: also emit the atoms that follow from a comparison with a
+	// minimum (DomAtoms only; normal forms are left as confirmed)
+	derive bool
+	// deflocals: a struct-typed local that is assigned once (or built field by
+	// field) renders as its definition instead of its source name, so that
+	// renaming a local, or moving its construction, does not change renderings
+	deflocals bool
+	defDepth  int
+}
+
+// minPhiInputs: when v is the phi of "m := u; if w < m { m = w }" (or the
+// if/else form), the two inputs, each of which bounds v from above.
+func minPhiInputs(v ssa.Value) []ssa.Value {
+	phi, ok := v.(*ssa.Phi)
+	if !ok || len(phi.Edges) != 2 {
+		return nil
+	}
+	b := phi.Block()
+	var ifb *ssa.BasicBlock
+	for _, p := range b.Preds {
+		c := p
+		if _, isIf := c.Instrs[len(c.Instrs)-1].(*ssa.If); !isIf {
+			if len(c.Preds) != 1 {
+				return nil
+			}
+			c = c.Preds[0]
+		}
+		if ifb != nil && ifb != c {
+			return nil
+		}
+		ifb = c
+	}
+	if ifb == nil {
+		return nil
+	}
+	iff, ok := ifb.Instrs[len(ifb.Instrs)-1].(*ssa.If)
+	if !ok || ifb.Succs[0] == ifb.Succs[1] {
+		return nil
+	}
+	cmp, ok := iff.Cond.(*ssa.BinOp)
+	if !ok {
+		return nil
+	}
+	for k, p := range b.Preds {
+		var truth bool
+		switch {
+		case p == ifb:
+			truth = ifb.Succs[0] == b
+		case p == ifb.Succs[0]:
+			truth = true
+		case p == ifb.Succs[1]:
+			truth = false
+		default:
+			return nil
+		}
+		op := cmp.Op
+		if !truth {
+			op = negate(op)
+		}
+		lo, hi := cmp.X, cmp.Y
+		switch op {
+		case token.LSS, token.LEQ:
+		case token.GTR, token.GEQ:
+			lo, hi = hi, lo
+		default:
+			return nil
+		}
+		if phi.Edges[k] != lo || phi.Edges[1-k] != hi {
+			return nil
+		}
+	}
+	return []ssa.Value{phi.Edges[0], phi.Edges[1]}
 }
 
 // isNewHelper: f is a declared function that did not exist on the reference tree.
@@ -214,9 +375,70 @@ func isNewHelper(f *ssa.Function) bool {
 	return ok && core.IsNewFunc(obj)
 }
 
+// valueHelper: g can be walked inline by Fingerprint — it has a body of at
+// most 40 blocks without loops and without go, defer, send or select.
+func valueHelper(g *ssa.Function) bool {
+	if g == nil || len(g.Blocks) == 0 || len(g.Blocks) > 40 {
+		return false
+	}
+	for _, b := range g.Blocks {
+		for _, in := range b.Instrs {
+			switch in.(type) {
+			case *ssa.Go, *ssa.Defer, *ssa.Send, *ssa.Select, *ssa.RunDefers:
+				return false
+			}
+		}
+	}
+	// loop-free: no edge to a block on the current DFS stack
+	state := map[*ssa.BasicBlock]int{}
+	var dfs func(b *ssa.BasicBlock) bool
+	dfs = func(b *ssa.BasicBlock) bool {
+		state[b] = 1
+		for _, s := range b.Succs {
+			if state[s] == 1 || (state[s] == 0 && !dfs(s)) {
+				return false
+			}
+		}
+		state[b] = 2
+		return true
+	}
+	return dfs(g.Blocks[0])
+}
+
+// usedInCond: the result of call (or one of its components) is tested by a
+// branch; such helpers are expanded where they are tested (helperPathsOn).
+func usedInCond(v ssa.Value, depth int) bool {
+	refs := v.Referrers()
+	if refs == nil || depth > 2 {
+		return false
+	}
+	for _, r := range *refs {
+		switch x := r.(type) {
+		case *ssa.If:
+			return true
+		case *ssa.BinOp:
+			switch x.Op {
+			case token.EQL, token.NEQ, token.LSS, token.LEQ, token.GTR, token.GEQ:
+				if usedInCond(x, depth+1) {
+					return true
+				}
+			}
+		case *ssa.UnOp:
+			if x.Op == token.NOT && usedInCond(x, depth+1) {
+				return true
+			}
+		case *ssa.Extract:
+			if usedInCond(x, depth+1) {
+				return true
+			}
+		}
+	}
+	return false
+}
+
 // child makes the fingerprinter that renders callee g as inlined at call.
 func (fp *fingerprinter) child(g *ssa.Function, args []ssa.Value) *fingerprinter {
-	c := &fingerprinter{short: fp.short, f: g, pred: map[*ssa.BasicBlock]*ssa.BasicBlock{}, spill: map[*ssa.Alloc]ssa.Value{}, subst: map[*ssa.Parameter]string{}, depth: fp.depth + 1}
+	c := &fingerprinter{short: fp.short, derive: fp.derive, deflocals: fp.deflocals, f: g, pred: map[*ssa.BasicBlock]*ssa.BasicBlock{}, spill: map[*ssa.Alloc]ssa.Value{}, subst: map[*ssa.Parameter]string{}, depth: fp.depth + 1}
 	for i, p := range g.Params {
 		if i < len(args) {
 			c.subst[p] = fp.expr(args[i])
@@ -570,6 +792,22 @@ func (fp *fingerprinter) cond(v ssa.Value, truth bool) []string {
 				op = negate(op)
 			}
 			a, b := fp.expr(x.X), fp.expr(x.Y)
+			if fp.derive && op != token.EQL && op != token.NEQ {
+				// x < min(u, v) gives x < u and x < v (the minimum written as
+				// "m := u; if v < m { m = v }")
+				lo, hi, sop := x.X, x.Y, "<"
+				if op == token.GTR || op == token.GEQ {
+					lo, hi = hi, lo
+				}
+				if op == token.LEQ || op == token.GEQ {
+					sop = "<="
+				}
+				out := []string{fmt.Sprintf("%s %s %s", fp.expr(lo), sop, fp.expr(hi))}
+				for _, in := range minPhiInputs(hi) {
+					out = append(out, fmt.Sprintf("%s %s %s", fp.expr(lo), sop, fp.expr(in)))
+				}
+				return out
+			}
 			switch op {
 			case token.GTR:
 				return []string{fmt.Sprintf("%s < %s", b, a)}
@@ -621,6 +859,11 @@ func (fp *fingerprinter) phiValue(p *ssa.Phi) ssa.Value {
 func (fp *fingerprinter) addr(v ssa.Value) string {
 	switch x := v.(type) {
 	case *ssa.FieldAddr:
+		if al, isAlloc := x.X.(*ssa.Alloc); isAlloc && fp.deflocals {
+			if d, ok := fp.localFieldDef(al, x.Field); ok {
+				return d
+			}
+		}
 		if f := fieldVar(x); f != nil {
 			return fp.addrBase(x.X) + "." + core.FieldName(f)
 		}
@@ -629,6 +872,14 @@ func (fp *fingerprinter) addr(v ssa.Value) string {
 	case *ssa.Alloc:
 		if pv, ok := fp.spill[x]; ok {
 			return fp.expr(pv)
+		}
+		if d, ok := fp.localDef(x); ok {
+			return d
+		}
+		if fp.deflocals && x.Comment != "" {
+			if d, ok := localOrdinal(x); ok {
+				return d
+			}
 		}
 		if x.Comment != "" {
 			return x.Comment
@@ -642,6 +893,14 @@ func (fp *fingerprinter) addrBase(v ssa.Value) string {
 	case *ssa.Alloc:
 		if pv, ok := fp.spill[x]; ok {
 			return fp.expr(pv)
+		}
+		if d, ok := fp.localDef(x); ok {
+			return d
+		}
+		if fp.deflocals && x.Comment != "" {
+			if d, ok := localOrdinal(x); ok {
+				return d
+			}
 		}
 		if x.Comment != "" {
 			return x.Comment
@@ -712,6 +971,9 @@ func (fp *fingerprinter) expr(v ssa.Value) string {
 		if (commutative[op] || op == token.EQL || op == token.NEQ) && b < a {
 			a, b = b, a
 		}
+		if op == token.ADD && a == "<str>" && b == "<str>" {
+			return "<str>" // a message assembled from constant strings
+		}
 		return fmt.Sprintf("(%s %s %s)", a, op, b)
 	case *ssa.UnOp:
 		if x.Op == token.MUL {
@@ -755,6 +1017,24 @@ func (fp *fingerprinter) expr(v ssa.Value) string {
 			if g := call.Call.StaticCallee(); isNewHelper(g) {
 				if ret, ok := pureStraightLine(g); ok && x.Index < len(ret.Results) {
 					return fp.child(g, call.Call.Args).expr(ret.Results[x.Index])
+				}
+				// (value, error) helper with a single path on which the
+				// error is nil: the value is what that path returns (where
+				// the error is non-nil the value is not used)
+				if n := g.Signature.Results().Len(); n >= 2 && x.Index < n-1 && fp.derive && g.Signature.Results().At(n-1).Type().String() == "error" {
+					paths, ok := fp.helperPathsOn(g, call.Call.Args, n-1, true, true)
+					var feasible [][]string
+					for _, pa := range paths {
+						if atoms, _ := splitHelperPath(pa); Consistent(atoms) {
+							feasible = append(feasible, pa)
+						}
+					}
+					if ok && len(feasible) == 1 {
+						_, res := splitHelperPath(feasible[0])
+						if parts := strings.Split(res, "\x00"); x.Index < len(parts) {
+							return parts[x.Index]
+						}
+					}
 				}
 			}
 		}
@@ -809,7 +1089,7 @@ func (fp *fingerprinter) expr(v ssa.Value) string {
 // DomAtoms renders, in fingerprint normal form, the branch conditions that
 // dominate instruction in (the conjunction on its dominator chain).
 func DomAtoms(in ssa.Instruction) []string {
-	fp := &fingerprinter{short: true, f: in.Parent(), pred: map[*ssa.BasicBlock]*ssa.BasicBlock{}, spill: map[*ssa.Alloc]ssa.Value{}}
+	fp := &fingerprinter{short: true, derive: true, f: in.Parent(), pred: map[*ssa.BasicBlock]*ssa.BasicBlock{}, spill: map[*ssa.Alloc]ssa.Value{}}
 	// register spilled parameters
 	for _, b := range in.Parent().Blocks {
 		for _, i2 := range b.Instrs {
@@ -822,11 +1102,73 @@ func DomAtoms(in ssa.Instruction) []string {
 			}
 		}
 	}
+	return fp.domAtoms(in, nil)
+}
+
+// assertAtoms: what the calls of new helpers that dominate in establish by
+// returning at all. A helper that did not exist on the reference tree and
+// panics on some of its paths ("requireX()": if !x { panic }) returns only
+// where the conditions common to its returning paths hold.
+func (fp *fingerprinter) assertAtoms(in ssa.Instruction) []string {
 	var out []string
-	for _, g := range Guards(in.Block()) {
-		out = append(out, fp.cond(g.Cond, g.True)...)
+	for b := in.Block(); b != nil; b = b.Idom() {
+		for _, i2 := range b.Instrs {
+			if i2 == in {
+				break
+			}
+			call, ok := i2.(*ssa.Call)
+			if !ok {
+				continue
+			}
+			g := call.Call.StaticCallee()
+			if !isNewHelper(g) || fp.depth >= 2 {
+				continue
+			}
+			out = append(out, fp.returnAtoms(g, call.Call.Args)...)
+		}
 	}
-	return DeriveAtoms(out)
+	return out
+}
+
+// returnAtoms: the conjuncts common to all returning paths of the loop-free
+// helper g that has at least one panicking path; nil otherwise.
+func (fp *fingerprinter) returnAtoms(g *ssa.Function, args []ssa.Value) []string {
+	if !valueHelper(g) {
+		return nil
+	}
+	c := fp.child(g, args)
+	var paths [][]string
+	panics, bad := false, false
+	var walk func(b, pred *ssa.BasicBlock, conds []string)
+	walk = func(b, pred *ssa.BasicBlock, conds []string) {
+		if bad || len(paths) > 64 {
+			bad = true
+			return
+		}
+		c.pred[b] = pred
+		switch x := b.Instrs[len(b.Instrs)-1].(type) {
+		case *ssa.Return:
+			paths = append(paths, sortedCopy(conds))
+		case *ssa.Panic:
+			panics = true
+		case *ssa.If:
+			walk(b.Succs[0], b, append(append([]string{}, conds...), c.cond(x.Cond, true)...))
+			walk(b.Succs[1], b, append(append([]string{}, conds...), c.cond(x.Cond, false)...))
+		case *ssa.Jump:
+			walk(b.Succs[0], b, conds)
+		default:
+			bad = true
+		}
+	}
+	walk(g.Blocks[0], nil, nil)
+	if bad || !panics || len(paths) == 0 {
+		return nil
+	}
+	atoms, ok := intersectPaths(paths)
+	if !ok {
+		return nil
+	}
+	return atoms
 }
 
 // RenderValue renders a value in fingerprint normal form (phis are opaque).
@@ -872,6 +1214,10 @@ type Anchor struct {
 	Instr   ssa.Instruction
 	Args    []string
 	Atoms   []string
+	// ArgsR, AtomsR: the same with locals rendered by their definitions
+	// (filled in by callers that compare with AnchorsResolved)
+	ArgsR  []string
+	AtomsR []string
 }
 
 // Anchors lists the calls in f (in block/instruction order) with their
@@ -906,17 +1252,12 @@ func collectAnchors(fp *fingerprinter, f *ssa.Function, extra []string, out *[]A
 				}
 			}
 			count[name]++
-			local := &fingerprinter{short: true, f: f, pred: map[*ssa.BasicBlock]*ssa.BasicBlock{}, spill: fp.spill, subst: fp.subst, depth: fp.depth}
+			local := &fingerprinter{short: true, derive: true, deflocals: fp.deflocals, f: f, pred: map[*ssa.BasicBlock]*ssa.BasicBlock{}, spill: fp.spill, subst: fp.subst, depth: fp.depth}
 			var args []string
 			for _, a := range ci.Common().Args {
 				args = append(args, local.expr(a))
 			}
-			var atoms []string
-			atoms = append(atoms, extra...)
-			for _, g := range Guards(in.Block()) {
-				atoms = append(atoms, local.cond(g.Cond, g.True)...)
-			}
-			atoms = DeriveAtoms(atoms)
+			atoms := local.domAtoms(in, extra)
 			*out = append(*out, Anchor{Callee: name, Ordinal: count[name], Instr: in, Args: args, Atoms: atoms})
 			if g := ci.Common().StaticCallee(); isNewHelper(g) && !busy[g] && fp.depth < 2 {
 				busy[g] = true
